@@ -65,6 +65,10 @@ TLClose == /\ IsEvent("lclose")
            /\ lopen' = FALSE /\ backlog' = <<>> /\ hpc' = ListenerClosed(hpc)
            /\ UNCHANGED <<cfgv, first, replied, unread, wn, dclosed, apc, acur, tunnelS, wrappedS, cli, agr, obs>>
 
+(* a relay stops listening when it goes back to stand-by (not observable from outside) *)
+EnvClose == /\ lopen' = FALSE /\ backlog' = <<>> /\ hpc' = ListenerClosed(hpc)
+            /\ UNCHANGED <<cfgv, first, replied, unread, wn, dclosed, apc, acur, tunnelS, wrappedS, cli, agr, obs>>
+
 TW == IsEvent("w") /\ Ev.i \in Strays /\ DialerWrite(Ev.i, Ev.cls)
 
 TClose == IsEvent("close") /\ Ev.i \in Strays /\ DialerClose(Ev.i)
@@ -146,6 +150,7 @@ TSilent ==
        \/ (~Rendezvous /\ (NextIs("lclose") \/ NextIs("cdial") \/ (NextIs("accept") /\ Ev.i = 1)) /\ CDial)
        \/ (~Rendezvous /\ NextIs("cread") /\ (ProxyReply \/ ProxyEof))
        \/ (Blind /\ (AAccept \/ \E i \in Conns : HRead(i) \/ HReply(i)))
+       \/ (Blind /\ lopen /\ Ev.e \in {"arrive", "cdial"} /\ ~Ev.ok /\ EnvClose)
 
 TNext == TReset \/ TArrive \/ TAccept \/ TLClose \/ TW \/ TClose \/ TGot
          \/ TCDial \/ TCRet \/ TCWrite \/ TCReply \/ TPEof \/ TCClose
